@@ -924,6 +924,63 @@ pub fn run(thorough: bool) -> i32 {
         rep.cov("part6_real_writer_histories", g.histories - before);
     }
 
+    // (7) two complete, valid FDT instances in a row with every ordered pair of instance ids from a boundary set
+    // (lower after higher, equal, the 20-bit wrap), then the object packets and a third instance
+    {
+        let before = g.histories;
+        let exp_ok = unix_to_ntp_secs(EPOCH_2027 + 7200).to_string();
+        let ids: Vec<u32> = vec![0, 1, 2, 7, 0x7FFFF, 0x80000, 0xFFFFE, 0xFFFFF];
+        let mk = |toi: &str, exp: &str| -> String {
+            FdtX::new(exp)
+                .file(FileX::new(toi, "file:///two").attr("Content-Length", "21").attr("Transfer-Length", "21").attr("FEC-OTI-FEC-Encoding-ID", "0").attr("FEC-OTI-Maximum-Source-Block-Length", "2").attr("FEC-OTI-Encoding-Symbol-Length", "8"))
+                .xml()
+        };
+        let obj_pkts: Vec<Vec<u8>> = {
+            let content = obj_bytes(21, 3);
+            (0..3)
+                .map(|j| {
+                    let mut sp = rfc::Spec::minimal(rfc::FEC_NOCODE, TSI, 5);
+                    sp.payload_id = rfc::pid(rfc::FEC_NOCODE, (j / 2) as u32, (j % 2) as u32, 0, 8);
+                    sp.payload = content[j * 8..((j + 1) * 8).min(21)].to_vec();
+                    rfc::encode(&sp)
+                })
+                .collect()
+        };
+        let mut pairs: Vec<(u32, u32, u32)> = Vec::new();
+        for a in &ids {
+            for b in &ids {
+                for c in [0u32, 0xFFFFF, 3] {
+                    pairs.push((*a, *b, c));
+                }
+            }
+        }
+        let fu3 = fu.clone();
+        let res = par_map(&pairs, move |_, (a, b, c)| {
+            let mut gg = G::default();
+            let mut ff: Found = Default::default();
+            let exp2 = unix_to_ntp_secs(EPOCH_2027 + 9000).to_string();
+            let f1 = fdt_packets(TSI, *a, mk("5", &exp_ok).as_bytes(), 8192, None, None);
+            let f2 = fdt_packets(TSI, *b, mk("6", &exp2).as_bytes(), 8192, None, None);
+            let f3 = fdt_packets(TSI, *c, mk("5", &exp2).as_bytes(), 8192, None, None);
+            let mut h: Vec<&[u8]> = Vec::new();
+            h.extend(f1.iter().map(|p| &p[..]));
+            h.extend(f2.iter().map(|p| &p[..]));
+            h.extend(obj_pkts.iter().map(|p| &p[..]));
+            h.extend(f3.iter().map(|p| &p[..]));
+            h.extend(f1.iter().map(|p| &p[..]));
+            let r = run_history(&h, Some(&fu3), &mut gg);
+            note(&mut ff, r, &h);
+            (gg, ff)
+        });
+        for (gg, ff) in res {
+            g.merge(&gg);
+            for (k, v) in ff {
+                found.entry(k).and_modify(|e| e.2 += v.2).or_insert(v);
+            }
+        }
+        rep.cov("part7_fdt_instance_id_sequences", g.histories - before);
+    }
+
     for (key, (what, case, n)) in found {
         let v = Violation { key, what: format!("{} [{} case(s)]", what, n), case };
         rep.add(v);
